@@ -146,9 +146,7 @@ fn abstract_download(server: &Server, v: &TransferView, t: &TransferSpec) -> u64
     h.byte(1);
     h.u64(v.arrivals.len().min(12) as u64);
     if let Some(call) = &a0.app {
-        let first_size = a0.reply.as_ref().and_then(|b| coap_lite::Packet::from_bytes(b).ok()).and_then(|p| {
-            p.get_first_option_as::<coap_lite::block_handler::BlockValue>(coap_lite::CoapOption::Block2).and_then(|x| x.ok()).map(|b| b.size_exponent)
-        });
+        let first_size = a0.reply.as_ref().and_then(|b| crate::refparse::accept(b)).and_then(|p| p.block(23)).map(|b| b.2);
         h.byte(first_size.map_or(9, |s| s));
         let size = first_size.map_or(16, szx_size);
         h.u64(match call.body_out_len % size {
